@@ -41,7 +41,7 @@ def run(prop, tier, seed, repo):
         out = os.path.join(work, "batch.json")
         fam, k = ("sample", 70) if tier == "quick" else ("all", 0)
         r = tlc.run("Gen_Batch", env={"GEN_K": k, "GEN_OUT": out, "GEN_FAMILY": fam},
-                    args=["-seed", str(seed * 100 + 12)], timeout=7200, heap="6g")
+                    args=["-seed", str(seed * 100 + 12)], timeout=7200, heap="6g", stack="512m")
         if not r.ok:
             raise common.MachineryError("Gen_Batch failed: %s\n%s" % (r.errors, r.out[-2000:]))
         with open(out) as f:
@@ -71,7 +71,7 @@ def run(prop, tier, seed, repo):
             obs.check_ints(recs)
             with open(path, "w") as f:
                 json.dump(recs, f)
-            jobs.append(dict(module="Trace_Batch", env={"TRACE_FILE": path}, workers=1, timeout=7200))
+            jobs.append(dict(module="Trace_Batch", env={"TRACE_FILE": path}, workers=1, timeout=7200, stack="512m"))
         rs = tlc.run_parallel(jobs, nproc=12)
         verdicts = {}
         for r in rs:
